@@ -242,8 +242,9 @@ type Backing struct {
 }
 
 type Blob struct {
-	bk   *Backing
-	bgen int
+	bk    *Backing
+	bgen  int
+	reuse bool // an empty slice of a previously filled array (x[:0]): appending overwrites the array
 	Segs []BSeg
 	// sink: a destination buffer handed to Read(p); the reader deposits into got
 	sink    bool
@@ -333,6 +334,17 @@ func blobFromSlice(g *G, s Slice) *Blob {
 	return &Blob{Segs: []BSeg{{Sym: ts}}}
 }
 
+// checkFresh reports a read of bytes whose backing array has been overwritten since this
+// slice was taken (recycled or pooled buffer, append(x[:0], …), re-decoded RawMessage).
+func (x *Blob) checkFresh(g *G) {
+	if x != nil && x.bk != nil && x.bgen != x.bk.gen {
+		r := g.run
+		r.classTags = append(r.classTags, "stale-buffer-read")
+		r.buildViolation(g, "payload-bytes-stable-until-consumed", "a []byte that aliases a recycled buffer was read after the buffer had been overwritten by a later frame: "+g.where())
+		panic(abortRun{})
+	}
+}
+
 // asBlob views any []byte value as a blob.
 func (g *G) asBlob(v Value) *Blob {
 	switch x := v.(type) {
@@ -340,12 +352,7 @@ func (g *G) asBlob(v Value) *Blob {
 		if x == nil {
 			return &Blob{}
 		}
-		if x.bk != nil && x.bgen != x.bk.gen {
-			r := g.run
-			r.classTags = append(r.classTags, "stale-buffer-read")
-			r.buildViolation(g, "payload-bytes-stable-until-consumed", "a []byte that aliases a recycled buffer was read after the buffer had been overwritten by a later frame: "+g.where())
-			panic(abortRun{})
-		}
+		x.checkFresh(g)
 		return x
 	case Slice:
 		return blobFromSlice(g, x)
@@ -419,6 +426,7 @@ func (b *Blob) Len(g *G) Value {
 }
 
 func (b *Blob) ToStr(g *G) Str {
+	b.checkFresh(g)
 	if bs, ok := b.ConcreteBytes(); ok {
 		return S(string(bs))
 	}
@@ -592,6 +600,16 @@ func (b *Blob) SliceOp(g *G, lo, hi *Int) Value {
 	hiFull := hi == nil || termEq(hi.Term(64), n.Term(64))
 	if loZero && hiFull {
 		return b
+	}
+	if hi != nil && hi.T == nil && hi.C == 0 && loZero && len(b.Segs) > 0 {
+		// b[:0] of a non-empty slice keeps b's array: whatever is appended to it overwrites
+		// what b (and everybody who still holds b) sees. Give the array an identity.
+		if b.bk == nil {
+			g.run.nextObj++
+			b.bk = &Backing{id: g.run.nextObj}
+			b.bgen = b.bk.gen
+		}
+		return &Blob{bk: b.bk, bgen: b.bgen, reuse: true}
 	}
 	if ts, ok := b.byteTerms(); ok {
 		l, h := 0, len(ts)
